@@ -586,7 +586,11 @@ class FmtStr:
         """Gets atts shared among all nonzero length component Chunks"""
         # TODO cache this, could get ugly for large FmtStrs
         atts = {}
-        first = self.chunks[0]
+        # empty runs show nothing: candidates come from the first run that has characters
+        chunks = [fs for fs in self.chunks if len(fs) > 0] or self.chunks
+        if not chunks:
+            return atts
+        first = chunks[0]
         for att in sorted(first.atts):
             # TODO how to write this without the '???'?
             if all(
